@@ -44,6 +44,8 @@ pub mod c14;
 pub mod c14b;
 #[cfg(feature = "c15")]
 pub mod c15;
+#[cfg(feature = "c15b")]
+pub mod c15b;
 #[cfg(feature = "c16")]
 pub mod c16;
 #[cfg(feature = "c17")]
@@ -363,6 +365,10 @@ pub fn run_request(req: &str) -> String {
     #[cfg(feature = "c15")]
     {
         ans = ans.or_else(|| c15::run_request(cmd, &args));
+    }
+    #[cfg(feature = "c15b")]
+    {
+        ans = ans.or_else(|| c15b::run_request(cmd, &args));
     }
     #[cfg(feature = "c16")]
     {
